@@ -8,5 +8,7 @@ export CARGO_NET_OFFLINE=true
 for m in kani/incrate/*.rs; do
   b=$(basename "$m" .rs); [ "$b" = mod ] || [ "$b" = util ] || : > ".build/playback/$b.rs"
 done
+: > .build/playback/cli.rs
 (cd /repo && cargo kani -p sfs-core --target-dir /verif/.build/kani-core --harness k_geno_try_from_raw --output-format terse >/dev/null 2>&1) || echo "warning: kani warm-up failed (checks will report it)"
+(cd /repo && cargo kani -p sfs-cli --target-dir /verif/.build/kani-core -Z unstable-options -Z stubbing --exact --harness verif_kani::k_cli_fill_mapping --output-format terse >/dev/null 2>&1) || echo "warning: kani warm-up of the cli crate failed (checks will report it)"
 echo setup done
